@@ -87,8 +87,21 @@ func vStubCreateFragment(seqNr uint32, trackID uint32) (*mp4.Fragment, error) {
 	return &mp4.Fragment{}, nil
 }
 func vStubAddFragment(s *mp4.MediaSegment, f *mp4.Fragment) {}
+var vLongCueTable = [3]int{1500, 2500, 3700}
+
+type vWvttCall struct{ region, utcMS, segNr int }
+
+var vWvttCalls []vWvttCall
+
+// the payload builder (vttc/payl box encoding, time formatting) is stubbed: the returned bytes name the call
 func vStubWvttCuePayload(lang string, region, utcMS, segNr int) []byte {
-	return []byte{1, 2, 3}
+	vWvttCalls = append(vWvttCalls, vWvttCall{region, utcMS, segNr})
+	return []byte{byte(len(vWvttCalls) - 1)}
+}
+
+func vStubWvttCueInfo(data []byte) (utcMS, segNr, region int) {
+	c := vWvttCalls[int(data[0])]
+	return c.utcMS, c.segNr, c.region
 }
 func vStubSamplesOf(seg *mp4.MediaSegment) []mp4.FullSample { return vRecSamples }
 
@@ -97,10 +110,36 @@ func vH_C12_wvtt() {
 	dur := vInt("segDur", 1, 6000)
 	startS := vInt("startS", 0, 1<<32-1)
 	cueDur := vInt("cueDur", 1, 999)
-	vRecSamples = nil
-	seg, err := createSubtitlesWvttMediaSegment(7, uint64(bmdt), uint32(dur), "en", uint64(bmdt+1000*startS), cueDur, 0)
+	if vBool("longCue") {
+		// cue durations above one second (own cue grid of ceil(cueDur/1000) seconds): concrete values
+		cueDur = vLongCueTable[vConc(vInt("longCueIdx", 0, len(vLongCueTable)-1))]
+	}
+	vRecSamples, vWvttCalls = nil, nil
+	nr := vInt("nr", 0, 1<<31)
+	region := vConc(vInt("region", 0, 1))
+	seg, err := createSubtitlesWvttMediaSegment(uint32(nr), uint64(bmdt), uint32(dur), "en", uint64(bmdt+1000*startS), cueDur, region)
 	vAssert("C12.wvtt.ok", err == nil)
 	ss := vSamplesOf(seg)
+	// the cue samples (everything but the 8-byte empty-cue filler) are the cue grid, in order, and their payload is built
+	// for that cue's UTC second, this segment number and the configured region
+	want := calcCueItvls(bmdt, dur, bmdt+1000*startS, cueDur)
+	k := 0
+	for i := range ss {
+		if len(ss[i].Data) == 8 {
+			continue
+		}
+		vAssert("C12.wvtt.cue-sample-has-a-cue", k < len(want))
+		if k < len(want) {
+			vAssert("C12.wvtt.cue-sample-start", int(ss[i].DecodeTime) == want[k].startMS)
+			vAssert("C12.wvtt.cue-sample-duration", int(ss[i].Dur) == want[k].endMS-want[k].startMS)
+			u, n, rg := vWvttCueInfo(ss[i].Data)
+			vAssert("C12.wvtt.cue-payload-utc-second", u == want[k].utcS*1000)
+			vAssert("C12.wvtt.cue-payload-segment-number", n == nr)
+			vAssert("C12.wvtt.cue-payload-region", rg == region)
+		}
+		k++
+	}
+	vAssert("C12.wvtt.every-cue-has-a-sample", k == len(want))
 	vAssert("C12.wvtt.nonempty", len(ss) >= 1)
 	t := uint64(bmdt)
 	for i := range ss {
